@@ -470,3 +470,44 @@ Lemma sd_callbacks (grad proj : Rvec -> Rvec) (step tol : R) (maxiter : nat) (x 
 Proof.
   split; [apply sd_trace_le | split; [apply sd_trace_full | intros; now apply sd_trace_nth]].
 Qed.
+
+(* ================================================ Douglas-Rachford primal-dual *)
+Lemma nth_last_aux (l : list Rvec) (d : Rvec) (n : nat) : length l = S n -> nth n l d = last l d.
+Proof.
+  revert n; induction l as [|a l IH]; intros n Hl; [discriminate|].
+  destruct l as [|b l].
+  - cbn in Hl. injection Hl as <-. reflexivity.
+  - destruct n as [|n]; [cbn in Hl; lia|].
+    change (nth (S n) (a :: b :: l) d) with (nth n (b :: l) d).
+    change (last (a :: b :: l) d) with (last (b :: l) d).
+    apply IH. cbn in *; lia.
+Qed.
+Section DR_R.
+Variables (proxf : Rvec -> Rvec) (tau : R) (lam : nat -> R).
+Notation dropR := (@drop R).
+Lemma dr_trace_length (ops : list dropR) (n k0 : nat) s : length (dr_trace proxf tau lam ops n k0 s) = n.
+Proof. revert k0 s; induction n as [|n IH]; intros k0 s; cbn [dr_trace length]; [reflexivity | now rewrite IH]. Qed.
+Lemma dr_trace_nth (ops : list dropR) (n k0 k : nat) s : (k < n)%nat ->
+  nth k (dr_trace proxf tau lam ops n k0 s) [] = dr_p1 proxf tau lam ops (k0 + k) (iterk k k0 (dr_step proxf tau lam ops) s).
+Proof.
+  revert k0 k s; induction n as [|n IH]; intros k0 k s Hk; [lia|].
+  cbn [dr_trace]. destruct k as [|k]; cbn [nth iterk].
+  - now rewrite Nat.add_0_r.
+  - rewrite IH by lia. now replace (S k0 + k)%nat with (k0 + S k)%nat by lia.
+Qed.
+(* the k-th callback of any longer run is what a run with niter = k+1 returns;
+   in particular the last callback is the returned x *)
+Lemma dr_callbacks (ops : list dropR) (n : nat) (x : Rvec) :
+  length (dr_trace proxf tau lam ops n 0 (dr_init ops x)) = n
+  /\ (forall k, (k < n)%nat ->
+        nth k (dr_trace proxf tau lam ops n 0 (dr_init ops x)) [] = dr_run proxf tau lam ops (S k) x)
+  /\ dr_run proxf tau lam ops n x = last (dr_trace proxf tau lam ops n 0 (dr_init ops x)) x.
+Proof.
+  split; [apply dr_trace_length|]. split.
+  - intros k Hk. rewrite dr_trace_nth by exact Hk. reflexivity.
+  - destruct n as [|n]; [reflexivity|].
+    rewrite <- (nth_last_aux _ x n) by apply dr_trace_length.
+    rewrite (nth_indep _ x []) by (rewrite dr_trace_length; lia).
+    rewrite dr_trace_nth by lia. reflexivity.
+Qed.
+End DR_R.
